@@ -1,5 +1,6 @@
 import ShVerif.Model.C23
 import ShVerif.Proofs.C23
+import ShVerif.Proofs.C23Spec
 /-
   C23 — `read` splits lines like bash.  Property theorems (helper lemmas: Proofs/C23.lean).
 -/
@@ -62,6 +63,62 @@ theorem readfields_spec_counterexample : ¬ readfields_spec_statement := by
   cases h1
   revert h2
   decide
+
+/-- The splitting theorem on the region the code gets right: for every IFS, every number of names
+    (≥ 1, or `read -a`), both `-r` settings and every line that is `Clean` — every non-white-space
+    IFS delimiter stands strictly between two field characters (modulo IFS white space), no
+    backslash in IFS unless `-r`, no unpaired final backslash — ReadFields succeeds and the values
+    assigned are exactly those of the POSIX/bash `read` algorithm.  IFS made of white space only
+    (or unset, or empty) is the special case without any delimiter condition. -/
+theorem readfields_spec_partial (ifs line : List Char) (names : Option Nat) (raw : Bool)
+    (hk : ∀ k, names = some k → 1 ≤ k) (hc : Clean ifs raw line) :
+    ∃ fs, readFields ifs line (nOf names) raw = .ok fs ∧
+      valuesOf names fs = specRead ifs line names raw := by
+  have h := readfields_spec_partial' ifs line names raw hk hc
+  cases names <;> exact h
+
+/-- IFS made of white space only (in particular unset or empty IFS): no delimiter condition is
+    needed. -/
+theorem readfields_spec_ws (ifs line : List Char) (names : Option Nat) (raw : Bool)
+    (hk : ∀ k, names = some k → 1 ≤ k)
+    (hws : ∀ c ∈ ifs, c = ' ' ∨ c = '\t' ∨ c = '\n')
+    (hl : raw = true ∨ loneBackslash line = false) :
+    ∃ fs, readFields ifs line (nOf names) raw = .ok fs ∧
+      valuesOf names fs = specRead ifs line names raw := by
+  apply readfields_spec_partial ifs line names raw hk
+  refine ⟨?_, hl, isolated_of_ws ifs hws _ .start (by simp)⟩
+  right
+  cases h : ifs.contains '\\' with
+  | false => rfl
+  | true =>
+    have := hws '\\' (by simpa using h)
+    rcases this with h | h | h <;> exact absurd h (by decide)
+
+
+/-- The builtin as a whole on a clean first line: `read` through readLine + ReadFields (+ the
+    REPLY loop) assigns what the specification of the builtin says, consumes the same input and
+    returns the same status. -/
+theorem read_builtin_spec_partial (ifs : Option Bytes) (raw : Bool) (mode : Mode) (input : Bytes)
+    (hm : ∀ k, mode = .names k → 1 ≤ k)
+    (hc : mode ≠ .bare → Clean (ifsOf ifs) raw (decodeRunes (specReadLine raw input).line)) :
+    readBuiltin ifs raw mode input = .ok (specBuiltin ifs raw mode input) := by
+  unfold readBuiltin specBuiltin
+  rw [readline_spec]
+  cases mode with
+  | bare => simp [bare_reply]
+  | array =>
+    obtain ⟨fs, h1, h2⟩ := readfields_spec_partial (ifsOf ifs)
+      (decodeRunes (specReadLine raw input).line) none raw (by intro k hk; cases hk) (hc (by simp))
+    simp only [nOf] at h1
+    simp only [valuesOf] at h2
+    simp [h1, h2]
+  | names k =>
+    obtain ⟨fs, h1, h2⟩ := readfields_spec_partial (ifsOf ifs)
+      (decodeRunes (specReadLine raw input).line) (some k) raw
+      (by intro k' hk; cases hk; exact hm k rfl) (hc (by simp))
+    simp only [nOf] at h1
+    simp only [valuesOf] at h2
+    simp [h1, h2]
 
 /-! Further counter-examples (each replayed against bash by the harness, corpus/C23-known.txt). -/
 
